@@ -75,7 +75,32 @@ def handle (req : J) : Except String J := do
     match pipeline cfg o cmps inputs with
     | .error e => pure (errJ e)
     | .ok r =>
+      -- optional render jobs, run in sequence on the same graph (class names are converted in place)
+      let jobs ← asArr (fieldD req "render" (.arr #[]))
+      let consts := fieldD req "consts" (Lean.Json.mkObj [])
+      let lo ← decLabelOracles orc
+      let ro : RenderOracles := { label := lo, isPrintable := o.gen.str.isPrintable }
+      let mut g := r.named
+      let mut outs : Array J := #[]
+      for job in jobs do
+        let rc ← decRenderCfg job consts
+        let layout ← asStr (fieldD job "layout" (.str "flat"))
+        let pre := match fieldD job "preamble" .null with | .str p => some p | _ => none
+        let fresh ← asBool (fieldD job "fresh" (.bool true))
+        let g0 := if fresh then r.named else g
+        let res : Except PyErr (String × NameMap) := do
+          let (roots, inj) ← (if layout == "nested" then composeNested g0
+            else do pure ((← composeFlat g0).map (fun i => Node.mk i []), []))
+          generateCode rc ro g0 roots inj pre
+        match res with
+        | .ok (text, names) =>
+          g := { g0 with models := g0.models.map (fun m => { m with name := ((names.find? (·.1 == m.idx)).map (·.2)).join }) }
+          outs := outs.push (Lean.Json.mkObj [("text", .str text)])
+        | .error e =>
+          g := g0
+          outs := outs.push (Lean.Json.mkObj [("err", .str e.toString)])
       pure (okJ (Lean.Json.mkObj [
+        ("render", .arr outs),
         ("process", encGraph r.afterProcess),
         ("merge", encGraph r.afterMerge),
         ("replaces", encRepl r.replaces),
